@@ -443,7 +443,7 @@ theorem gmmTail_total {α} (K : Kern) (P : PPrms α) (hK : KernOK K P.basePerc) 
     have hcount := remerge_count minSep (applyPerm (K.argsort bases) bases) (K.argsort bases)
       (K.gmm P.gmmScores sc (best + 1)).labels (best + 1) (by omega) hsb
       (by have := isPermOf_perm hperm; rwa [hbl] at this)
-      (fun x => ⟨hK.gmm_lt _ _ _ x, hpop x⟩)
+      (fun x => ⟨hK.gmm_lt _ _ _ (Nat.succ_pos best) x, hpop x⟩)
     simp only [bind, Except.bind, pure, Except.pure]
     have hbases' : (List.range (best + 1)).mapM (fun i =>
         calcBase K.pctl ((vals.zip (K.gmm P.gmmScores sc (best + 1)).labels).filterMap
